@@ -8,9 +8,20 @@
      lvl "D" | "I" | "W" | "E" (anything else, e.g. the harness's own "X" marker, decodes to E).
    The SAME session is run twice, once per password.
    e_oracle = C20_ok p1 p2 stream1 stream2 (Model/LogModel.v).
-   e_agree  = each observed stream equals the model's stream for that password up to the
-              interleaving of the three logging goroutines (per-thread subsequences equal); the
-              "%.2f" of a flood message is accepted with either rounding of an exact tie. *)
+   e_agree  = the model's prediction is CONTAINED in what was observed; records the model does
+              not know about are allowed (the property does not say which other records exist).
+              Precisely, for each of the two runs and each logging goroutine t (send, recv, other;
+              LogModel.thread_of), with M = proj t (model stream) and O = proj t (observed stream):
+                (1) the wire records — those whose text starts with "-> " or "<- ", which only
+                    write and recv produce — are EXACTLY the model's: filter is_wire O = filter
+                    is_wire M (none missing, altered, added or reordered);
+                (2) M is a subsequence of O (every predicted record occurs, in order);
+                (3) the EXTRA records O \ M (leftmost matching; by (1) independent of the
+                    matching for wire records) contain no wire record, in particular none
+                    starting with "-> PASS";
+              and (4) the extra records of the run with p1 equal those of the run with p2, thread
+              by thread and in order (also implied by clause (c) of the oracle).
+              The "%.2f" of a flood message is accepted with either rounding of an exact tie. *)
 From Coq Require Import String.
 From Verif Require Import EntryBase LogModel.
 Open Scope Z_scope.
@@ -79,12 +90,53 @@ Definition model_stream (fs : Z -> bytes) (i : list bytes) (p : bytes) : list lo
 Definition model_C20 (i : list bytes) : list bytes :=
   flat (model_stream fmt_secs_ascii i (get i 9)) ++ flat (model_stream fmt_secs_ascii i (get i 10)).
 
-Definition agree_one (i : list bytes) (p : bytes) (o : list logrec) : bool :=
-  streams_eqb o (model_stream fmt_secs_ascii i p) || streams_eqb o (model_stream fmt_secs_dn i p).
+(* a record that only write ("-> %s") or recv ("<- %s") can produce *)
+Definition is_wire (r : logrec) : bool := has_prefix (snd r) m_out || has_prefix (snd r) m_in.
+
+(* [extras m o] = Some (the records of o left over by the leftmost embedding of m into o), or
+   None when m is not a subsequence of o *)
+Fixpoint extras (m o : list logrec) : option (list logrec) :=
+  match o with
+  | [] => match m with [] => Some [] | _ :: _ => None end
+  | y :: o' =>
+      match m with
+      | x :: m' => if rec_eqb x y then extras m' o'
+                   else option_map (cons y) (extras m o')
+      | [] => option_map (cons y) (extras [] o')
+      end
+  end.
+
+(* clauses (1)-(3) for one goroutine; returns the extra records *)
+Definition agree_thread (t : thread) (m o : list logrec) : option (list logrec) :=
+  let mt := proj t m in
+  let ot := proj t o in
+  if recs_eqb (filter is_wire ot) (filter is_wire mt) then
+    match extras mt ot with
+    | Some ex =>
+        if forallb (fun r => negb (is_wire r) && negb (has_prefix (snd r) m_out_pass)) ex
+        then Some ex else None
+    | None => None
+    end
+  else None.
+
+Definition agree_stream (m o : list logrec) : option (list logrec) :=
+  match agree_thread TSend m o, agree_thread TRecv m o, agree_thread TOther m o with
+  | Some a, Some b, Some c => Some (a ++ b ++ c)
+  | _, _, _ => None
+  end.
+
+Definition agree_one (i : list bytes) (p : bytes) (o : list logrec) : option (list logrec) :=
+  match agree_stream (model_stream fmt_secs_ascii i p) o with
+  | Some ex => Some ex
+  | None => agree_stream (model_stream fmt_secs_dn i p) o
+  end.
 
 Definition agree_C20 (i o : list bytes) : bool :=
   let s := obs_streams o in
-  agree_one i (get i 9) (fst s) && agree_one i (get i 10) (snd s).
+  match agree_one i (get i 9) (fst s), agree_one i (get i 10) (snd s) with
+  | Some e1, Some e2 => recs_eqb e1 e2                    (* clause (4) *)
+  | _, _ => false
+  end.
 
 Definition oracle_C20 (i o : list bytes) : bool :=
   let s := obs_streams o in
